@@ -419,6 +419,7 @@ fn has_big_literal(r: &[u8]) -> bool {
 }
 
 fn make_stream(rng: &mut Rng, resp: &[Vec<u8>]) -> (Vec<u8>, Vec<usize>) {
+    vh_proto::srcdict::reset_large();
     let n = rng.len(1, 12);
     let mut s = vec![];
     let mut bounds = vec![];
@@ -667,6 +668,12 @@ fn run_session_case(ctx: &mut Ctx, rng: &mut Rng, resp: &[Vec<u8>], untagged: &[
     let mut plans = vec![];
     let mut server = vec![];
     let first_issue = 1u64;
+    // a server that answers a command only after it has received the whole command line (half of the
+    // sessions in which no stream is abandoned): a client that waits with part of the command unsent
+    // then waits forever
+    let mut gates: Vec<(usize, usize)> = vec![];
+    let mut need = 0usize;
+    let mut any_abandon = false;
     let ending = rng.below(10); // 0: EOF before last completion, 1: garbage, 2: silent before completion
     for k in 0..ncmd {
         let cmd = gen_command(rng);
@@ -727,12 +734,15 @@ fn run_session_case(ctx: &mut Ctx, rng: &mut Rng, resp: &[Vec<u8>], untagged: &[
                 { let e: &Vec<u8> = rng.pick(untagged); part.extend_from_slice(e); } // unsolicited data after the completion
             }
         }
+        need += tag.len() + 1 + cmd.args.len() + 2;
+        gates.push((server.len(), need));
         server.extend(part);
         if last && (ending == 3 || ending == 4) {
             // the peer falls silent in the middle of a further line
             server.extend_from_slice(*rng.pick(&[&b"* 2 EXI"[..], &b"* 1 FETCH (BODY[] {5}\r\nab"[..], &b"*"[..], &b"* OK\r"[..]]));
         }
         let abandon_after = if rng.chance(1, 6) { Some(rng.usize(6)) } else { None };
+        any_abandon |= abandon_after.is_some();
         plans.push(CmdPlan { cmd, abandon_after });
     }
     let _ = resp;
@@ -744,6 +754,10 @@ fn run_session_case(ctx: &mut Ctx, rng: &mut Rng, resp: &[Vec<u8>], untagged: &[
     io.wscript = w.into();
     io.fscript = f.into();
     io.eof_at_end = eof_at_end;
+    if !any_abandon && rng.bool() {
+        io.gates = gates;
+        ctx.log.count("session:reactive-server");
+    }
 
     exec_session(ctx, io, server, plans, prop);
 }
@@ -764,6 +778,7 @@ fn exec_session(ctx: &mut Ctx, io: MockIo, server: Vec<u8>, plans: Vec<CmdPlan>,
     let mut ends: Vec<&'static str> = vec![];
     let mut lines: Vec<Vec<u8>> = vec![];
     let mut pending_without_cause = 0;
+    let mut stalled_unsent: Option<(usize, usize)> = None;
     for (k, plan) in plans.into_iter().enumerate() {
         let tag = expected_tag(first_issue + k as u64);
         let mut line = tag.clone().into_bytes();
@@ -825,6 +840,10 @@ fn exec_session(ctx: &mut Ctx, io: MockIo, server: Vec<u8>, plans: Vec<CmdPlan>,
                 if pending && silent {
                     if stuck_once {
                         end = "silent";
+                        let unsent = stream.verif_unsent();
+                        if unsent > 0 && stalled_unsent.is_none() {
+                            stalled_unsent = Some((k, unsent));
+                        }
                         break;
                     }
                     stuck_once = true;
@@ -862,7 +881,21 @@ fn exec_session(ctx: &mut Ctx, io: MockIo, server: Vec<u8>, plans: Vec<CmdPlan>,
     }
 
     // ---------------- oracles on the implementation
-    let (frames, _stop, _off) = one_shot(&server);
+    if let Some((k, unsent)) = stalled_unsent {
+        // C05: never pending while the transport can progress; C06: flushed before it waits
+        ctx.fail(
+            "stalled-unsent",
+            format!(
+                "command {} stays Pending, poll after poll, with {} bytes of its line still unsent although the transport would take them (nothing scripted is left: every write and flush succeeds)",
+                k + 1,
+                unsent
+            ),
+            &op,
+        );
+    }
+    // what the server's transport has handed over (all of it unless the server waits for a command)
+    let received = io.drained;
+    let (frames, _stop, _off) = one_shot(&server[..std::cmp::min(received, server.len())]);
     if prop == "C05" || prop == "C11" {
         // walk the server's responses: each stream gets them in wire order up to and including the
         // first tagged completion that carries exactly its own tag
@@ -1275,6 +1308,13 @@ fn main() {
                             script.push(RDir::Go(usize::MAX));
                         }
                     }
+                }
+                // 'not ready' results at the very end of the recorded reads came from a peer that had nothing more
+                // to give (the server's output here is exactly what was delivered): they follow from the silence
+                // itself and need no script entry - without them the run is recognised as stuck at the same poll
+                // as when it was recorded
+                while matches!(script.last(), Some(RDir::Pending)) {
+                    script.pop();
                 }
                 io.incoming = server.iter().copied().collect();
                 io.rscript = script.into();
